@@ -1,4 +1,10 @@
-"""C07, generic-grid part: Cartesian ring/pos, step / bounds coordinates, nesting, reduce, changePitch.
+"""C07, generic-grid part: Cartesian ring/pos, step / bounds coordinates, nesting, reduce, changePitch, labels.
+
+Streams: run_cart_ringpos (exhaustive cells), run_generated (grid kinds x probe indices), run_nesting (system > assembly >
+block > pin composites + the reference reactor), run_nesting_kinds (every (parent kind, child kind) pair of 10 grid kinds,
+every radial > axial > axial triple, seeded depth 2..4 with owners at non-zero indices, theta-R-Z levels, multi-location
+sites, an axial sub-mesh inside a block of the reference reactor; addingIsValid truth table), run_labels (getLabel /
+locatorLabelToIndices, function level + round trip + negative-index stream), run_changepitch, run_reduce_sequences.
 
 Model: lean/ArmiVerif/Model/Grid.lean; theorems: lean/ArmiVerif/Props/C07Grid.lean; driver Drivers/Grid.lean.
 Called by harness/c07.py (run / search).
@@ -36,6 +42,9 @@ def enc_args(unitSteps, bounds, limits, offset, geom, sym):
 def enc_grid(g):
     """constructor arguments of a live grid, read from its reduce() (used only where reduce itself is
     not the thing under comparison: nesting on real composites)."""
+    given = getattr(g, "_verifCtorArgs", None)
+    if given is not None:
+        return given          # a grid whose reduce() is the known finding (2-D step matrix + bounds): as constructed
     p = g.reduce()
     return enc_args(p.unitSteps, p.bounds, p.unitStepLimits, p.offset, p.geomType, p.symmetry)
 
@@ -473,9 +482,15 @@ def chain_of(loc):
     return out
 
 
-def enc_loc(loc):
+def enc_loc(loc, trz=False):
+    """one chain element; with trz=True an index locator of a ThetaRZGrid is sent as `T tau cos sin ARGS idx`
+    (its getLocalCoordinates goes through ThetaRZGrid.getCoordinates; cos/sin are parameters of the model)."""
     from armi.reactor import grids
 
+    if trz and isinstance(loc.grid, grids.ThetaRZGrid) and not isinstance(loc, grids.CoordinateLocation):
+        mesh = impl_vec(grids.StructuredGrid.getCoordinates, loc.grid, loc.indices)
+        cs, sn = (math.cos(mesh[0]), math.sin(mesh[0])) if mesh is not None else (1.0, 0.0)
+        return f"T {common.rat(TAU)} {common.rat(cs)} {common.rat(sn)} {enc_grid(loc.grid)} {ints(loc.indices)}"
     if isinstance(loc, grids.CoordinateLocation):
         xyz = [float(v) for v in loc.indices]
         if loc.grid is None:
@@ -491,12 +506,18 @@ def nesting_case(ctx, leafloc, label, req, impl_vals, cases, exact):
 
     chain = chain_of(leafloc)
     enc = " ".join(enc_loc(l) for l in chain)
-    case = {"what": label, "chain": [repr(l) for l in chain]}
+    has_trz = any(isinstance(l.grid, grids.ThetaRZGrid) for l in chain)
+    case = {"what": label, "chain": [repr(l) for l in chain],
+            "grids": [type(l.grid).__name__ + ("" if l.grid is None else ":" + canon_args(l.grid.reduce())) for l in chain]}
     gc = impl_vec(leafloc.getGlobalCoordinates)
     gb = impl_vec(leafloc.getGlobalCellBase)
     gt = impl_vec(leafloc.getGlobalCellTop)
     for op, v in (("global", gc), ("globalbase", gb), ("globaltop", gt)):
-        req.append(f"{op} {enc}"); impl_vals.append(v); cases.append({**case, "op": op})
+        if op == "global" and has_trz:
+            req.append("globalT " + " ".join(enc_loc(l, trz=True) for l in chain))
+        else:
+            req.append(f"{op} {enc}")
+        impl_vals.append(v); cases.append({**case, "op": op})
     # oracle: global == local + every ancestor's coordinates
     tot = np.zeros(3)
     ok = True
@@ -509,7 +530,8 @@ def nesting_case(ctx, leafloc, label, req, impl_vals, cases, exact):
     if ok and (gc is None or not close_vec(gc, list(tot), scale=float(np.abs(tot).max()))):
         ctx.fail("nested-global-is-sum", "global coordinates == sum of the local coordinates along the parent chain "
                  "(including the grid-less origin of the top-level system)", case, observed=gc, expected=list(tot))
-    if gc is not None and gb is not None and gt is not None and not any(isinstance(l, grids.CoordinateLocation) for l in chain[:-1]):
+    if gc is not None and gb is not None and gt is not None and not has_trz and \
+            not any(isinstance(l, grids.CoordinateLocation) for l in chain[:-1]):
         # base/top compose the same way (the top of the chain contributes its coordinates)
         mid = [(a + b) / 2.0 for a, b in zip(gb, gt)]
         if not close_vec(gc, mid, scale=max(abs(v) for v in gc)):
@@ -522,8 +544,21 @@ def nesting_case(ctx, leafloc, label, req, impl_vals, cases, exact):
                          observed=gc[d], expected=[lo, hi])
     # complete indices: one level, only axial-in-radial
     if not isinstance(leafloc, grids.MultiIndexLocation):
-        ci = [float(v) for v in leafloc.getCompleteIndices()]
         parent = leafloc.parentLocation
+        if isinstance(parent, grids.CoordinateLocation) and parent.grid is not None and \
+                not isinstance(leafloc, grids.CoordinateLocation) and expected_axial_only(leafloc.grid) and \
+                not expected_axial_only(parent.grid):
+            # an axial mesh whose owner sits at FREE COORDINATES inside a radial grid: the owner has no indices to add
+            # (today numpy refuses the in-place int64 += float64, see Grid.completeIndicesRaises); the property says
+            # nothing about this configuration, so it is neither judged nor compared
+            ctx.count("complete indices not judged: axial child under a free-coordinate parent inside a grid")
+            return
+        try:
+            ci = [float(v) for v in leafloc.getCompleteIndices()]
+        except TypeError as e:
+            ctx.fail("complete-indices-raise", "complete indices exist for an index locator under an index-locator (or grid-less) "
+                     "parent", case, observed=repr(e)[:200])
+            return
         exact.append((f"complete {enc_loc(leafloc)} {enc_loc(parent) if parent is not None else '_'}",
                       common.ratlist(ci), {**case, "op": "complete"}))
         own = [float(v) for v in leafloc.indices]
@@ -546,6 +581,9 @@ def nesting_case(ctx, leafloc, label, req, impl_vals, cases, exact):
             if not grids.addingIsValid(leafloc.grid, parent.grid):
                 ctx.fail("adding-is-valid-axial-in-radial", "addingIsValid(axial grid, radial grid) is True", case, observed=False)
             try:
+                if int(leafloc.i) != 0 or int(leafloc.j) != 0 or not isinstance(leafloc.grid, grids.AxialGrid):
+                    # an off-axis locator is not "the assembly's cell"; a Cartesian 1 x 1 x n column numbers its own rings
+                    raise NotImplementedError
                 rp = tuple(int(v) for v in leafloc.getRingPos())
                 wantrp = tuple(int(v) for v in parent.grid.getRingPos(tuple(int(v) for v in parent.indices)))
                 if rp != wantrp:
@@ -553,7 +591,9 @@ def nesting_case(ctx, leafloc, label, req, impl_vals, cases, exact):
                              case, observed=rp, expected=wantrp)
             except (NotImplementedError, ValueError):
                 pass
-            ctx.count("axial-in-radial nestings with %d axial cell(s)" % min(4, len(leafloc.grid.getBounds()[2]) - 1))
+            zb = leafloc.grid.getBounds()[2]
+            ncell = (len(zb) - 1) if zb is not None else int(leafloc.grid.getIndexBounds()[2][1])
+            ctx.count("axial-in-radial nestings with %d axial cell(s)" % min(4, ncell))
             ctx.count("axial-in-radial nestings, parent k %s 0" % ("==" if int(parent.indices[2]) == 0 else "!="))
             if [int(v) for v in ci] != [int(a) + int(b) for a, b in zip(leafloc.indices, parent.indices)]:
                 ctx.fail("complete-indices-add-all-three", "complete indices of an axial locator = its indices + ALL of the "
@@ -562,6 +602,223 @@ def nesting_case(ctx, leafloc, label, req, impl_vals, cases, exact):
         if ci != want:
             ctx.fail("complete-indices-axial-only", "complete indices add the parent's indices only for an axial grid "
                      "nested in a non-axial grid", case, observed=ci, expected=want)
+        if not isinstance(leafloc, grids.CoordinateLocation) and parent is not None and parent.grid is not None \
+                and leafloc.grid is not None:
+            adding_truth_table(ctx, case, leafloc, parent, ci, own, exact)
+
+
+def adding_truth_table(ctx, case, loc, parent, ci, own, exact):
+    """The contract of `addingIsValid` (axial-only grid inside a grid that is NOT axial-only) on one (child, parent)
+    pair, what `addingIsValid` says, and what `getCompleteIndices` actually did, must be one and the same thing."""
+    from armi.reactor import grids
+
+    mine_ax, par_ax = expected_axial_only(loc.grid), expected_axial_only(parent.grid)
+    contract = mine_ax and not par_ax
+    said = bool(grids.addingIsValid(loc.grid, parent.grid))
+    pidx = [float(v) for v in parent.indices]
+    ctx.count("nesting pair: child grid %s in parent grid %s, parent k %s 0" % (
+        "axial-only" if mine_ax else "not axial-only", "axial-only" if par_ax else "not axial-only",
+        "==" if pidx[2] == 0 else "!="))
+    exact.append((f"addingvalid {enc_loc(loc)} {enc_loc(parent)}", "T" if said else "F", {**case, "op": "addingvalid"}))
+    if said != contract:
+        ctx.fail("adding-is-valid-contract", "addingIsValid(child grid, parent grid) <=> child grid is axial-only AND the "
+                 "parent grid is NOT axial-only", {**case, "child_axial_only": mine_ax, "parent_axial_only": par_ax},
+                 observed=said, expected=contract)
+    if any(v != 0 for v in pidx):
+        summed = [a + b for a, b in zip(own, pidx)]
+        did = True if ci == summed else False if ci == own else None
+        if did is None or did != contract:
+            ctx.fail("complete-indices-follow-adding-is-valid", "getCompleteIndices adds the parent's indices exactly when "
+                     "the child grid is axial-only and the parent grid is not (an axial mesh inside an axial mesh keeps "
+                     "its own indices)", {**case, "child_axial_only": mine_ax, "parent_axial_only": par_ax,
+                                          "own": own, "parent_indices": pidx},
+                     observed=ci, expected=summed if contract else own)
+
+
+# ---- nestings of every kind and depth (child grid axial-only or not) x (parent grid axial-only or not)
+NEST_KINDS = ["hexF", "hexC", "cart", "cartO", "trz", "axialB", "axialB", "axialS", "column", "mixed", "oneCell"]
+AXIAL_KINDS = ("axialB", "axialS", "column")
+
+
+def gen_nest_grid(rng, kind, obj):
+    """(grid anchored to `obj`, a locator-index chooser).  Axial-only by construction: axialB (AxialGrid, bounds),
+    axialS (step-defined k, zero x/y steps), column (a 1 x 1 x n column of a Cartesian step grid).  Not axial-only:
+    hex / Cartesian lattices (optionally tiered: several k layers), theta-R-Z, a 3-D Cartesian mesh with axial bounds,
+    a step grid with a single cell."""
+    from armi.reactor import grids
+
+    def nz(lo, hi):
+        v = rng.randint(lo, hi)
+        while v == 0:
+            v = rng.randint(lo, hi)
+        return v
+
+    if kind in ("hexF", "hexC", "cart", "cartO"):
+        tiers = rng.random() < 0.6
+        nk = rng.randint(2, 5) if tiers else 1
+        dz = common.dyadic(rng, 10, 400, 1) if tiers else 0.0
+        if kind in ("hexF", "hexC"):
+            pitch = rng.choice([16.142, 8.0, common.dyadic(rng, 0.5, 20, 3)])
+            us = [list(r) for r in grids.HexGrid._getRawUnitSteps(pitch, kind == "hexC")]
+            us[2][2] = dz
+            g = grids.HexGrid(unitSteps=tuple(tuple(r) for r in us), unitStepLimits=((-3, 3), (-3, 3), (0, nk)),
+                              armiObject=obj, symmetry=rng.choice(["full", "third periodic"]))
+        else:
+            w, h = common.dyadic(rng, 0.5, 20, 3), common.dyadic(rng, 0.5, 20, 3)
+            off = (w / 2.0, h / 2.0, 0.0) if kind == "cartO" else None
+            g = grids.CartesianGrid(unitSteps=((w, 0.0, 0.0), (0.0, h, 0.0), (0.0, 0.0, dz)),
+                                    unitStepLimits=((-3, 3), (-3, 3), (0, nk)), offset=off, armiObject=obj)
+        k = rng.randint(1, nk - 1) if tiers else (0 if rng.random() < 0.8 else nz(-2, 3))   # a cell made on the fly
+        return g, (nz(-3, 3), nz(-3, 3), k)
+    if kind == "trz":
+        nth, nr, nzc = rng.randint(2, 5), rng.randint(2, 4), rng.randint(2, 5)
+        th = [0.0] + sorted({common.dyadic(rng, 0.125, 6.25, 3) for _ in range(nth)})
+        off = None if rng.random() < 0.7 else (0.0, 0.0, common.dyadic(rng, -2, 2, 2))
+        g = grids.ThetaRZGrid(bounds=(np.array(th), np.array(inc_dyadic(rng, nr)), np.array(inc_dyadic(rng, nzc))),
+                              offset=off, armiObject=obj)
+        return g, (rng.randint(1, len(th) - 2) if len(th) > 2 else 0, rng.randint(1, nr - 1), rng.randint(1, nzc - 1))
+    if kind == "axialB":
+        n = rng.choice([1, 2, 3, rng.randint(2, 7)])
+        r = rng.random()
+        if r < 0.3:
+            g = grids.AxialGrid.fromNCells(n, armiObject=obj)
+        else:
+            off = None if r < 0.8 else (0.0, 0.0, common.dyadic(rng, -4, 4, 2))
+            g = grids.AxialGrid(bounds=(None, None, np.array(inc_dyadic(rng, n, lo=common.dyadic(rng, 0, 4, 2)))),
+                                offset=off, armiObject=obj)
+        k = rng.randint(1, n - 1) if n > 1 else 0
+        ij = (0, 0) if rng.random() < 0.8 else (nz(-2, 2), nz(-2, 2))
+        return g, (ij[0], ij[1], k)
+    if kind in ("axialS", "column", "oneCell"):
+        n = 1 if kind == "oneCell" else rng.randint(2, 6)
+        dz = common.dyadic(rng, 0.5, 30, 2)
+        if kind == "axialS":
+            us = ((0.0, 0.0, 0.0), (0.0, 0.0, 0.0), (0.0, 0.0, dz))
+        else:
+            us = ((common.dyadic(rng, 0.5, 4, 2), 0.0, 0.0), (0.0, common.dyadic(rng, 0.5, 4, 2), 0.0), (0.0, 0.0, dz))
+        cls = rng.choice([grids.AxialGrid, grids.CartesianGrid])
+        g = cls(unitSteps=us, unitStepLimits=((0, 1), (0, 1), (0, n)), armiObject=obj)
+        k = rng.randint(1, n - 1) if n > 1 else rng.choice([0, 1])
+        ij = (0, 0) if rng.random() < 0.7 else (nz(-2, 2), nz(-2, 2))
+        return g, (ij[0], ij[1], k)
+    if kind == "mixed":
+        w, h = common.dyadic(rng, 0.5, 4, 3), common.dyadic(rng, 0.5, 4, 3)
+        n, nzc = rng.randint(1, 2), rng.randint(2, 5)
+        zb = inc_dyadic(rng, nzc)
+        g = grids.CartesianGrid(unitSteps=((w, 0.0), (0.0, h), (0, 0)), bounds=(None, None, zb),
+                                unitStepLimits=((-n, n), (-n, n), (0, 1)), armiObject=obj)
+        g._verifCtorArgs = enc_args(((w, 0.0), (0.0, h), (0, 0)), (None, None, zb), ((-n, n), (-n, n), (0, 1)), None,
+                                    g._geomType, g._symmetry)
+        return g, (nz(-2, 2), nz(-2, 2), rng.randint(1, nzc - 1))
+    raise ValueError(kind)
+
+
+def make_nested(rng, kinds, top_mode):
+    """reactor > system > c1 > ... > leaf with one grid per level (`kinds`, outermost first); every owner sits at
+    indices that are non-zero in every axis its grid allows.  top_mode: how the outermost system is placed."""
+    from armi.reactor import grids
+    from armi.reactor.composites import Composite
+
+    top = Composite("system")
+    if top_mode == "origin":
+        top.spatialLocator = grids.CoordinateLocation(common.dyadic(rng, -200, 200, 2), common.dyadic(rng, -200, 200, 2),
+                                                      common.dyadic(rng, -50, 50, 2), None)
+    if top_mode != "orphan":
+        Composite("reactor").add(top)
+    holder, levels = top, []
+    for depth, kind in enumerate(kinds):
+        g, idx = gen_nest_grid(rng, kind, holder)
+        holder.spatialGrid = g
+        child = Composite(f"level{depth + 1}")
+        if rng.random() < 0.08 and depth < len(kinds) - 1 and kind not in AXIAL_KINDS:
+            # an intermediate object placed by free coordinates inside its parent's grid
+            child.spatialLocator = grids.CoordinateLocation(common.dyadic(rng, -5, 5, 3), common.dyadic(rng, -5, 5, 3),
+                                                            common.dyadic(rng, -5, 5, 3), g)
+        else:
+            child.spatialLocator = g[idx]
+        holder.add(child)
+        levels.append(child)
+        holder = child
+    return top, levels
+
+
+def run_nesting_kinds(ctx):
+    """C07-a: every (child grid axial-only?) x (parent grid axial-only?) combination at depth 2..4, owners at non-zero
+    indices, hex (both orientations) / Cartesian / theta-R-Z / axial parents; an axial sub-mesh inside a block of a
+    real axially meshed assembly."""
+    from armi.reactor import grids
+
+    rng = ctx.rng
+    req, impl_vals, cases, exact = [], [], [], []
+    combos = [(a, b) for a in (True, False) for b in (True, False)]
+    n = ctx.pick(200, 1500)
+    nonax = [k for k in NEST_KINDS if k not in AXIAL_KINDS]
+    allkinds = sorted(set(NEST_KINDS))
+    directed = [[a, b] for a in allkinds for b in allkinds]                       # every (parent kind, child kind) pair
+    directed += [[r, a, b] for r in ("hexF", "hexC", "cart", "cartO", "trz") for a in AXIAL_KINDS for b in AXIAL_KINDS]
+    for t in range(n + len(directed)):
+        if t < len(directed):
+            kinds = list(directed[t])
+            depth = len(kinds)
+        else:
+            depth = 2 + t % 3
+            # the innermost (child, parent) pair cycles through the four combinations; outer levels are free
+            child_ax, par_ax = combos[(t // 3) % 4]
+            kinds = [rng.choice(NEST_KINDS) for _ in range(depth - 2)]
+            kinds.append(rng.choice(AXIAL_KINDS) if par_ax else rng.choice(nonax))
+            kinds.append(rng.choice(AXIAL_KINDS) if child_ax else rng.choice(nonax))
+            if t % 7 == 0 and depth >= 3:
+                kinds[-3] = rng.choice(["hexF", "hexC", "cart", "cartO", "trz"])        # radial / x / y
+        top, levels = make_nested(rng, kinds, ("origin", "origin", "default", "orphan")[t % 4])
+        label = "generated nesting " + ">".join(kinds)
+        for lv in levels:
+            nesting_case(ctx, lv.spatialLocator, label, req, impl_vals, cases, exact)
+        # a multi-location child in the innermost grid: every site composes through the same chain
+        inner = levels[-2].spatialGrid if len(levels) >= 2 else top.spatialGrid
+        if t % 5 == 0 and kinds[-1] in ("hexF", "hexC", "cart", "cartO"):
+            multi = inner[[(rng.randint(-3, 3), rng.randint(-3, 3), 0) for _ in range(rng.randint(1, 4))]]
+            for site in multi:
+                nesting_case(ctx, site, label + " (site of a MultiIndexLocation)", req, impl_vals, cases, exact)
+            ctx.count("multi-location sites in nested grids", len(multi))
+        # the whole chain at once: complete indices never look further than the parent
+        leaf = levels[-1].spatialLocator
+        if not isinstance(leaf, grids.CoordinateLocation):
+            par = leaf.parentLocation
+            if not (isinstance(par, grids.CoordinateLocation) and par.grid is not None):
+                ci = common.ratlist([float(v) for v in leaf.getCompleteIndices()])
+                exact.append(("completechain " + " ".join(enc_loc(l) for l in chain_of(leaf)), ci,
+                              {"what": label, "op": "completechain", "chain": [repr(l) for l in chain_of(leaf)]}))
+        ctx.count("nesting depth %d" % depth)
+        ctx.case(("nestkinds", t), sample={"kinds": kinds, "leaf": repr(leaf), "global": impl_vec(leaf.getGlobalCoordinates)} if t == 5 else None)
+    # a real axially meshed assembly: an axial sub-mesh inside one of its blocks (radial / axial / axial)
+    from harness import c08
+
+    blocks = c08.reference_blocks()
+    for b in rng.sample(blocks, ctx.pick(4, 16)):
+        comp = b[rng.randrange(len(b))]
+        oldg, oldl = b.spatialGrid, comp.spatialLocator
+        try:
+            nsub = rng.randint(2, 5)
+            if rng.random() < 0.5:
+                sub = grids.AxialGrid.fromNCells(nsub, armiObject=b)
+            else:
+                sub = grids.AxialGrid(bounds=(None, None, np.array(inc_dyadic(rng, nsub))), armiObject=b)
+            b.spatialGrid = sub
+            comp.spatialLocator = sub[0, 0, rng.randint(1, nsub - 1)]
+            nesting_case(ctx, comp.spatialLocator, "reference reactor: axial sub-mesh inside a block", req, impl_vals, cases, exact)
+            ctx.case(("nestkinds-real", b.getName()), nontrivial=int(b.spatialLocator.k) != 0)
+        finally:
+            b.spatialGrid, comp.spatialLocator = oldg, oldl
+    model = lean_run("Grid", req + [e[0] for e in exact])
+    mv, me = model[: len(req)], model[len(req):]
+    for c, line, v in zip(cases, mv, impl_vals):
+        q = parse_rats(line)
+        if line == "bad-op" or not close_vec(v, q, scale=max([1.0] + [abs(float(x)) for x in (q or [])])):
+            ctx.disagree("Model/Grid.lean nesting (all kinds) vs IndexLocation", c, line, v)
+    ctx.compare("Model/Grid.lean completeIndices/addingIsValid (all kinds) vs locations.py", [e[2] for e in exact], me,
+                [e[1] for e in exact])
+    ctx.evaluations += len(model)
+    ctx.count("nesting chains (all kinds)", len(req) // 3)
 
 
 def run_nesting(ctx):
@@ -851,11 +1108,173 @@ def run_reduce_sequences(ctx):
         ctx.samples.append({"request": req[-1][:400], "model": model[-1][:300], "impl": impl_lines[-1][:300]})
 
 
+# ------------------------------------------------------------------------------------------ labels
+def _label_back(grids, lab):
+    try:
+        return tuple(grids.locatorLabelToIndices(lab))
+    except ValueError:
+        return None
+
+
+def run_labels(ctx):
+    """Grid.getLabel / HexGrid.getLabel / locatorLabelToIndices vs Grid.getLabel / labelToIndices of the model
+    (function level), round trip on the real pair, and the negative-index stream (known finding)."""
+    from armi.reactor import grids
+
+    rng = ctx.rng
+    req, impl, cases = [], [], []
+    vals = [0, 1, 2, 9, 10, 11, 99, 100, 101, 999, 1000, 1001, 12345, -1, -2, -9, -10, -11, -99, -100, -101, -1000]
+    cart = grids.CartesianGrid.fromRectangle(1.0, 1.0, numRings=3)
+    tuples = [(a, b) for a in vals for b in vals] + [(a, b, c) for a in vals[:13:2] + [-1, -10] for b in vals[1:13:3] + [-100]
+                                                     for c in vals[:13:2] + [-1]]
+    tuples += [tuple(rng.choice(vals + [rng.randint(-2000, 20000)]) for _ in range(rng.choice([2, 3]))) for _ in range(ctx.pick(300, 3000))]
+    labels = set()
+    nneg = 0
+    for ix in tuples:
+        lab = cart.getLabel(ix)                 # Grid.getLabel (static; CartesianGrid does not override it)
+        req.append(f"getlabel {ints(ix)}"); impl.append("L" + lab); cases.append(("getlabel", ix))
+        labels.add(lab)
+        back = _label_back(grids, lab)
+        want = tuple(ix) if len(ix) == 3 else (ix[0], ix[1], None)
+        if min(ix) >= 0:
+            ctx.count("label round trips (all indices >= 0)")
+            if back != want:
+                ctx.fail("label-roundtrip", "locatorLabelToIndices(getLabel(indices)) == indices (third entry None for two "
+                         "indices), for indices of any size", {"indices": list(ix), "label": lab}, observed=back, expected=want)
+        else:
+            ctx.count("labels with a negative index (excluded-point stream)")
+            nneg += 1
+            if back != want and nneg <= 6:
+                ctx.fail("label-roundtrip-negative-index", "locatorLabelToIndices(getLabel(indices)) == indices for a cell with "
+                         "a negative index (Cartesian cells left of / below the centre, negative axial index)",
+                         {"indices": list(ix), "label": lab, "grid": "CartesianGrid.fromRectangle(1, 1, numRings=3)"},
+                         observed="ValueError" if back is None else back, expected=want,
+                         note="f'{-1:03d}' is '-01'; '-01-002'.split('-') starts with an empty piece that int() refuses")
+        ctx.case(("label", ix))
+    # hex labels are (ring, pos[, k]): far cells give ring / pos >= 100 and >= 1000
+    hexg = grids.HexGrid.fromPitch(1.0, numRings=0)
+    far = [(i, j) for i in (0, 1, 57, 99, 100, 333, 999, 1000, 1203) for j in (0, 1, -1, 42, -58, 166, -999, 1000)]
+    far += [(rng.randint(-1500, 1500), rng.randint(-1500, 1500)) for _ in range(ctx.pick(200, 2000))]
+    for (i, j) in far:
+        for k in (None, 0, 7, 100, 1234):
+            ix = (i, j) if k is None else (i, j, k)
+            ring, pos = hexg.getRingPos(ix)
+            lab = hexg.getLabel(ix)
+            rp = (int(ring), int(pos)) if k is None else (int(ring), int(pos), k)
+            req.append(f"getlabel {ints(rp)}"); impl.append("L" + lab); cases.append(("hexlabel", ix))
+            labels.add(lab)
+            if ring < 1 or pos < 1:
+                ctx.fail("hex-pos-range", "ring, pos >= 1 (hypothesis of label_roundtrip)", {"i": i, "j": j}, observed=[ring, pos])
+            back = _label_back(grids, lab)
+            want = (int(ring), int(pos), k)
+            if back != want:
+                ctx.fail("hex-label-roundtrip", "label -> indices gives (ring, pos, k) for rings / positions of any size",
+                         {"i": i, "j": j, "k": k, "label": lab}, observed=back, expected=want)
+            elif k is not None:
+                ij = hexg.getIndicesFromRingAndPos(back[0], back[1])
+                if tuple(ij) != (i, j):
+                    ctx.fail("hex-label-roundtrip", "label -> (ring, pos) -> indices returns the cell", {"i": i, "j": j, "label": lab},
+                             observed=ij)
+            ctx.count("hex labels with ring or pos >= 100" if max(ring, pos) >= 100 else "hex labels with ring, pos < 100")
+        ctx.case(("hexlabel", i, j))
+    # decoder on its own: produced labels, and strings over digits and '-' around them
+    pool = sorted(labels)
+    strings = set(pool)
+    for lab in rng.sample(pool, min(len(pool), ctx.pick(150, 1200))):
+        r = rng.random()
+        if r < 0.25:
+            strings.add(lab[: rng.randint(0, len(lab))])
+        elif r < 0.5:
+            p = rng.randint(0, len(lab))
+            strings.add(lab[:p] + rng.choice("-0123456789") + lab[p:])
+        elif r < 0.75:
+            strings.add(lab + "-" + str(rng.randint(0, 500)))
+        else:
+            strings.add(lab.replace("-", "", 1))
+    strings |= {"", "-", "--", "1", "12-", "-12", "1-2", "1-2-3", "1-2-3-4", "001-002-003-004-005", "0-0", "000-000-000"}
+    for st in sorted(strings):
+        try:
+            v = grids.locatorLabelToIndices(st)
+            line = "[" + ",".join("None" if x is None else str(int(x)) for x in v) + "]"
+        except ValueError:
+            line = "reject"
+        req.append("labelidx L" + st); impl.append(line); cases.append(("labelidx", st))
+        ctx.count("locatorLabelToIndices: " + ("refused" if line == "reject" else "%d value(s)" % min(4, len(v))))
+    model = lean_run("Grid", req)
+    ctx.compare("Model/Grid.lean getLabel/labelToIndices vs Grid.getLabel/locatorLabelToIndices", cases, model, impl)
+    ctx.evaluations += len(req)
+    ctx.samples.append({"request": req[20], "model": model[20], "impl": impl[20]})
+
+
+# ------------------------------------------------------------------------------------------ locator objects
+def run_locators(ctx):
+    """indices <-> locator objects <-> (ring, pos) <-> labels on the real grids: every map undoes the other."""
+    from armi.reactor import grids
+
+    rng = ctx.rng
+    N = ctx.pick(10, 30)
+    n = N - 1
+    hexcells = [(i, j) for i in range(-n, n + 1) for j in range(-n, n + 1) if abs(i + j) <= n]
+    M = ctx.pick(6, 15)
+    sqcells = [(i, j) for i in range(-M, M + 1) for j in range(-M, M + 1)]
+    todo = [("hex flats up", grids.HexGrid.fromPitch(1.25, numRings=3, cornersUp=False), hexcells, True),
+            ("hex corners up", grids.HexGrid.fromPitch(2.0, numRings=3, cornersUp=True, symmetry="third periodic"), hexcells, True),
+            ("cartesian through centre", grids.CartesianGrid.fromRectangle(1.0, 2.0, numRings=3), sqcells, False),
+            ("cartesian offset", grids.CartesianGrid.fromRectangle(1.0, 2.0, numRings=3, isOffset=True), sqcells, False),
+            ("theta-R-Z", grids.ThetaRZGrid(bounds=(np.array([0.0, 1.0, 2.0, 3.0, 4.0, 5.0, 6.0]), np.arange(8.0), np.arange(5.0))),
+             [(i, j) for i in range(6) for j in range(7)], True)]
+    for name, g, cells, has_rp in todo:
+        for (i, j) in cells:
+            for k in ((0, 3) if name != "theta-R-Z" else (0, 2)):
+                case = {"grid": name, "i": i, "j": j, "k": k}
+                loc = g[i, j, k]
+                again = g[i, j, k]
+                if (loc.i, loc.j, loc.k) != (i, j, k) or tuple(int(v) for v in loc.indices) != (i, j, k) or loc.grid is not g \
+                        or not (again == loc) or not (loc == (i, j, k)) or tuple(loc.getCompleteIndices()) != (i, j, k):
+                    ctx.fail("locator-indices-roundtrip", "grid[i, j, k] is the locator of cell (i, j, k) of that grid: indices, "
+                             "complete indices (top-level grid) and equality give the cell back", case,
+                             observed=[(loc.i, loc.j, loc.k), list(loc.indices), loc.grid is g])
+                if has_rp:
+                    rp = tuple(int(v) for v in loc.getRingPos())
+                    if rp != tuple(int(v) for v in g.getRingPos((i, j, k))):
+                        ctx.fail("locator-ringpos-roundtrip", "locator.getRingPos() == grid.getRingPos(indices)", case, observed=rp)
+                    back = g.getLocatorFromRingAndPos(rp[0], rp[1], k)
+                    if not (back == loc) or (back.i, back.j, back.k) != (i, j, k):
+                        ctx.fail("locator-ringpos-roundtrip", "getLocatorFromRingAndPos(*locator.getRingPos(), k) is the locator "
+                                 "again", case, observed=[rp, (back.i, back.j, back.k)])
+                    if name != "theta-R-Z":
+                        lab = g.getLabel(loc.getCompleteIndices())
+                        r, p, kk = grids.locatorLabelToIndices(lab)
+                        viaLabel = g.getLocatorFromRingAndPos(r, p, kk)
+                        if not (viaLabel == loc):
+                            ctx.fail("locator-label-roundtrip", "label -> (ring, pos, k) -> locator is the locator the label "
+                                     "was made from", case, observed=[lab, (viaLabel.i, viaLabel.j, viaLabel.k)])
+                elif i >= 0 and j >= 0:
+                    lab = g.getLabel((i, j, k))
+                    viaLabel = g[tuple(grids.locatorLabelToIndices(lab))]
+                    if not (viaLabel == loc):
+                        ctx.fail("locator-label-roundtrip", "label -> indices -> locator is the locator the label was made from",
+                                 case, observed=[lab, (viaLabel.i, viaLabel.j, viaLabel.k)])
+                ctx.case(("locator", name, i, j, k))
+        # multi-location: the sites are the cells asked for, in order
+        for _ in range(ctx.pick(20, 100)):
+            want = [rng.choice(cells) + (rng.choice([0, 0, 1]),) for _ in range(rng.randint(0, 6))]
+            multi = g[list(want)]
+            got = [tuple(int(v) for v in ix) for ix in multi.indices]
+            if got != want or len(multi) != len(want) or any(l.grid is not g for l in multi) or multi.grid is not g:
+                ctx.fail("locator-multi-sites", "grid[[cells]] is a multi-location whose sites are exactly those cells of "
+                         "that grid", {"grid": name, "cells": want}, observed=got)
+        ctx.count("locator round trips: " + name, len(cells) * 2)
+
+
 # ------------------------------------------------------------------------------------------ entry points
 def run(ctx):
     run_cart_ringpos(ctx)
     run_generated(ctx)
     run_nesting(ctx)
+    run_nesting_kinds(ctx)
+    run_labels(ctx)
+    run_locators(ctx)
     run_changepitch(ctx)
     run_reduce_sequences(ctx)
 
@@ -869,7 +1288,7 @@ def search(ctx, disagreements, broken):
     out, seen = [], set()
     for seed in (ctx.seed, ctx.seed + 101):
         sub = type(ctx)(ctx.prop, "quick", seed)
-        for part in (run_generated, run_nesting, run_reduce_sequences, run_changepitch, run_cart_ringpos):
+        for part in (run_generated, run_nesting, run_nesting_kinds, run_labels, run_locators, run_reduce_sequences, run_changepitch, run_cart_ringpos):
             part(sub)
         for f in sub.failures:
             if f.key not in seen:
